@@ -278,8 +278,11 @@ class LibCalls:
         S = z3.Const(fresh_name("setof"), z3.ArraySort(e.sort(lst.t[1]), z3.BoolSort()))
         st.assume(z3.ForAll([x], z3.Select(S, x) == body, patterns=[z3.Select(S, x)]))
         j = z3.Int(fresh_name("j"))
-        st.assume(z3.ForAll([j], z3.Implies(z3.And(0 <= j, j < e.list_len(lst)), z3.Select(S, z3.Select(e.list_at(lst), j))),
-                            patterns=[z3.Select(e.list_at(lst), j)]))
+        elem_in = z3.Implies(z3.And(0 <= j, j < e.list_len(lst)), z3.Select(S, z3.Select(e.list_at(lst), j)))
+        try:
+            st.assume(z3.ForAll([j], elem_in, patterns=[z3.Select(e.list_at(lst), j)]))
+        except z3.Z3Exception:      # the element term is not a usable trigger (a list given by a lambda is beta-reduced): leave the choice to the solver
+            st.assume(z3.ForAll([j], elem_in))
         return Val(("set", lst.t[1]), S)
 
     # ================================================================== enumeration of finite sets
